@@ -258,9 +258,12 @@ pub fn run(thorough: bool, rest: &[String]) {
     }
     rep.set("chain_walks", json!(parts));
     rep.push_sample(json!({"chain": ["upd {l♭:[x,y]}", "commit", "upd {l♭:[y,x,z]}", "commit", "upd {}", "commit", "reopen", "read", "rebuild every stored version"]}));
+    // the cache shortcut of the chain walk under every schedule of the parallel readers (engine S):
+    // three arrays, cache capacity 3, reader two versions behind its cached ancestors
+    crate::props::engine_s::run_engine_s_only(&mut rep, thorough, "C16", Some("multi-array"));
     let np = rep.coverage["patch_sweep"]["pairs_with_nonempty_patch"].as_u64().unwrap_or(0);
     rep.set("distinct_nontrivial", json!(np));
     rep.set("exhaustive", json!(true));
-    rep.set("rule", json!("(a) ALL ordered pairs (old,new) of sequences WITH repetition over k symbols up to length L: apply_diff_patch(old, make_diff_patch(old,new)) == new, also after the patch went through JSON, no panic; distinct_nontrivial = pairs with a non-empty patch. (b) EVERY chain up to the stated length over the 16 duplicate-free arrays on {x,y,z} plus 'key absent' (emptying, refilling, removing and re-adding the key included), committing after every step or only at the end: read after each step, read after a cold reopen, and the reconstruction of every stored version on the warm and the cold replica equal what was submitted; the whole walk is repeated for MELDA_ARRAYDESCRIPTORS_CACHE_CAP in {1,2,16} x MELDA_DATA_CACHE_CAP in {1,16}."));
+    rep.set("rule", json!("(a) ALL ordered pairs (old,new) of sequences WITH repetition over k symbols up to length L: apply_diff_patch(old, make_diff_patch(old,new)) == new, also after the patch went through JSON, no panic; distinct_nontrivial = pairs with a non-empty patch. (b) EVERY chain up to the stated length over the 16 duplicate-free arrays on {x,y,z} plus 'key absent' (emptying, refilling, removing and re-adding the key included), committing after every step or only at the end: read after each step, read after a cold reopen, and the reconstruction of every stored version on the warm and the cold replica equal what was submitted; the whole walk is repeated for MELDA_ARRAYDESCRIPTORS_CACHE_CAP in {1,2,16} x MELDA_DATA_CACHE_CAP in {1,16}. (c) engine S: every schedule (preemption bound 1 quick / 2 thorough) of read and update on a replica with three arrays, a full cache of capacity 3 and cached ancestors two versions behind must give the sequential result."));
     rep.finish();
 }
